@@ -195,6 +195,12 @@ def parts(tier, rng):
             rule="valid streams x cut sets x min_chunk")
     p5 = F5("v5-fragmentations", "dec5", G5.dec5_valid(rng, n5 * 10), rule="valid streams x cut sets x min_chunk")
     res = [p3, p5]
+    # connection level, the glue between decoder and in-flight limiter: a PUBLISH delivered with an incomplete
+    # payload must be flagged so that its chunks bypass the limits its own handler is holding (otherwise the
+    # payload never reaches the reader for that fragmentation)
+    from props import C12 as LIM
+    res.append(LIM.SizedPart("limiter-view-v3", "sized3", p3.cases, rule="the same streams x cut sets"))
+    res.append(LIM.SizedPart("limiter-view-v5", "sized5", p5.cases[:len(p5.cases) // 2], rule="the same streams x cut sets"))
     first = True
     for name, cases in GP.all_cases(rng, "quick" if tier == "quick" else "full"):
         res.append(PlPart("payload-" + name, "payload", (PL_CORPUS if first else []) + cases, shards=16,
@@ -204,6 +210,9 @@ def parts(tier, rng):
 
 
 def replay_parts(rp):
+    if rp.get("engine", "").startswith("sized"):
+        from props import C12 as LIM
+        return [LIM.SizedPart("replay", rp["engine"], [rp["case"]], shards=1)]
     if rp.get("engine") == "payload":
         return [PlPart("replay", "payload", [rp["case"]], shards=1)]
     cls = {"dec3": F3, "dec5": F5}[rp.get("engine", "dec3")]
@@ -225,5 +234,8 @@ cc.DEC_CLAUSES["24"] = "the reader finished Ok before the final chunk was fed"
 
 
 def clause_text(part, oracle):
+    if part.engine.startswith("sized"):
+        from props import C12 as LIM
+        return LIM.clause_text(part, oracle)
     f = oracle.split(";")[0].split(",")
     return cc.DEC_CLAUSES.get(f[1] if len(f) > 1 else "", "oracle verdict " + oracle)
